@@ -113,7 +113,8 @@ def main(argv: list[str] | None = None) -> int:
                 harness_errors.append(f"re-run of violating case raised {why[-600:]}")
                 continue
             # a re-run that kills its interpreter (memory corruption in compiled code) confirms rather than refutes the violation
-            same = [v] if status == "died" else [x for x in rr.violations if engine.sig_key(x["signature"]) == key]
+            # ... and so does a re-run that violates in another way (e.g. the library now raises where it returned a wrong value before)
+            same = [v] if status == "died" else ([x for x in rr.violations if engine.sig_key(x["signature"]) == key] or rr.violations[:1])
             if not same:
                 harness_errors.append(
                     "violation did not reproduce on re-run (harness nondeterminism): "
